@@ -21,6 +21,7 @@ import (
 	"sort"
 	"strings"
 	"sync"
+	"sync/atomic"
 	"time"
 
 	"github.com/pkg/sftp"
@@ -63,24 +64,29 @@ type c03Case struct {
 	K      int    `json:"k,omitempty"`      // follow-up calls per round; 0 PRNG 1…6
 	Rounds int    `json:"rounds,omitempty"` // abandoned requests per run
 
+	// peer I/O disciplines (cli_iopeer.go): Transport sync | buf64 | buf4096 | buf1m (both directions; "" with Peer ""
+	// = the historical io.Pipe + eagerly reading peer), Peer eager | batch1 | batch2 | batch3 | batch8 | slow | bytewise
+	Transport string `json:"transport,omitempty"`
+	Peer      string `json:"peer,omitempty"`
+
 	ConnCap int `json:"conn_cap,omitempty"` // the first ConnCap requests of the run (and their replies) are replayed in the Lean connection model
 }
 
 type c03Res struct {
-	Calls      int            `json:"calls"`
-	Requests   int            `json:"requests"`
-	Batches    map[string]int `json:"batches"` // batch size -> count
-	Reordered  int            `json:"reordered_batches"`
-	MaxOut     int            `json:"max_outstanding"`
-	OpHist     map[string]int `json:"ops"`
-	Wrapped    bool           `json:"wrapped"`
-	Speculative int           `json:"speculative_reads,omitempty"` // READs of a concurrent WriteTo beyond the chunk that reported EOF
-	Trace      []string       `json:"trace,omitempty"`
-	Conn       *connLine      `json:"conn,omitempty"` // the recorded schedule as conn.run tokens + observed outcomes
-	ChanObs    []string       `json:"chan_obs,omitempty"` // the same window for chan.run: a<sid>/<channel class>, r<sid>:<tag> (cli_chan.go)
-	ChanClass  map[string]int `json:"chan_classes,omitempty"`
-	Fails      []c20Fail      `json:"fails,omitempty"`
-	ExitNow    bool           `json:"-"`
+	Calls       int            `json:"calls"`
+	Requests    int            `json:"requests"`
+	Batches     map[string]int `json:"batches"` // batch size -> count
+	Reordered   int            `json:"reordered_batches"`
+	MaxOut      int            `json:"max_outstanding"`
+	OpHist      map[string]int `json:"ops"`
+	Wrapped     bool           `json:"wrapped"`
+	Speculative int            `json:"speculative_reads,omitempty"` // READs of a concurrent WriteTo beyond the chunk that reported EOF
+	Trace       []string       `json:"trace,omitempty"`
+	Conn        *connLine      `json:"conn,omitempty"`     // the recorded schedule as conn.run tokens + observed outcomes
+	ChanObs     []string       `json:"chan_obs,omitempty"` // the same window for chan.run: a<sid>/<channel class>, r<sid>:<tag> (cli_chan.go)
+	ChanClass   map[string]int `json:"chan_classes,omitempty"`
+	Fails       []c20Fail      `json:"fails,omitempty"`
+	ExitNow     bool           `json:"-"`
 }
 
 func c03Child(idx int, raw json.RawMessage) (any, bool) {
@@ -163,7 +169,9 @@ func c03Opts(cs c03Case) []sftp.ClientOption {
 
 // Transfer files: a path "xfer_…_s<N>" names a regular file of N bytes (STAT, FSTAT and READ agree on N; READ
 // honours the end of the file), whose content is the pattern of its handle.
-func c03IsXfer(s string) bool { return strings.HasPrefix(s, "xfer_") || strings.HasPrefix(s, "h:xfer_") }
+func c03IsXfer(s string) bool {
+	return strings.HasPrefix(s, "xfer_") || strings.HasPrefix(s, "h:xfer_")
+}
 
 func c03XferSize(s string) uint64 {
 	i := strings.LastIndex(s, "_s")
@@ -305,7 +313,30 @@ func c03Run(cs c03Case) (res c03Res) {
 		res.Fails = append(res.Fails, c20Fail{key, what, act})
 		fmu.Unlock()
 	}
-	client, peer, err := peers.NewClient(cliVersion(), c03Opts(cs)...)
+	var client *sftp.Client
+	var peer interface {
+		Reply(b []byte) error
+		RawIn() []byte
+		Shutdown()
+	}
+	var reqs <-chan wire.Pkt
+	var iop *ioPeer
+	var err error
+	hangSuffix := ""
+	if cs.Peer == "" && cs.Transport == "" {
+		var ss *peers.ScriptedServer
+		client, ss, err = peers.NewClient(cliVersion(), c03Opts(cs)...)
+		peer, reqs = ss, ss.Reqs
+	} else {
+		client, iop, err = newIOClient(cliVersion(), cs.Transport, cs.Peer, cs.Seed, c03Opts(cs)...)
+		peer = iop
+		if iop != nil {
+			reqs = iop.Reqs
+			if iop.Serial {
+				hangSuffix = "/serial-peer" // a peer that does not read while it writes
+			}
+		}
+	}
 	if err != nil {
 		fail("tie/new-client", err.Error(), nil)
 		return
@@ -327,6 +358,8 @@ func c03Run(cs c03Case) (res c03Res) {
 	evStop := cs.ConnCap <= 0
 	arrivals := 0
 	var trace []string
+	var peerDoing atomic.Value // what the peer is doing right now (for the report of a hang)
+	peerDoing.Store("reading")
 	peerDone := make(chan struct{})
 	go func() {
 		defer close(peerDone)
@@ -395,9 +428,11 @@ func c03Run(cs c03Case) (res c03Res) {
 				if !evStop {
 					evs = append(evs, connEv{K: "r", ID: q.ID, T: connTok(frame)})
 				}
+				peerDoing.Store(fmt.Sprintf("writing the reply to request #%d (reply %d of a batch of %d; %d requests read and not yet answered); it reads again when the batch is written", q.ID, len(drop)+1, len(idxs), len(out)-len(drop)))
 				peer.Reply(frame)
 				drop[i] = true
 			}
+			peerDoing.Store("reading")
 			var rest []outReq
 			for i, o := range out {
 				if !drop[i] {
@@ -407,9 +442,49 @@ func c03Run(cs c03Case) (res c03Res) {
 			out = rest
 		}
 		quiet := 150 * time.Microsecond
+		if iop != nil && iop.Serial {
+			// ONE thread: read up to k requests, then write the replies chosen by the reply mode — not reading while
+			// writing —, then return to reading. It waits for a request as long as it takes only while it owes no reply.
+			for {
+				want := iop.BatchSize()
+				for len(out) < want {
+					iop.Pause()
+					d := quiet
+					if len(out) == 0 {
+						d = -1
+					}
+					p, ok, rerr := iop.ReadFrame(d)
+					if rerr != nil {
+						return // the client closed its writer (or the run was shut down)
+					}
+					if !ok {
+						break
+					}
+					add(p)
+				}
+				iop.Pause()
+				var idxs []int
+				switch cs.Mode {
+				case "reverse":
+					for i := len(out) - 1; i >= 0; i-- {
+						idxs = append(idxs, i)
+					}
+				case "fifo":
+					for i := range out {
+						idxs = append(idxs, i)
+					}
+				case "delay":
+					time.Sleep(time.Duration(prng.Intn(120)) * time.Microsecond)
+					idxs = []int{prng.Intn(len(out))}
+				default: // perm: a PRNG-sized subset in a PRNG order
+					idxs = prng.Perm(len(out))[:1+prng.Intn(len(out))]
+				}
+				answer(idxs)
+			}
+		}
 		for {
 			if len(out) == 0 {
-				p, ok := <-peer.Reqs
+				p, ok := <-reqs
 				if !ok {
 					return
 				}
@@ -420,7 +495,7 @@ func c03Run(cs c03Case) (res c03Res) {
 				// no barrier: take what has arrived, answer ONE PRNG-chosen request after a PRNG delay
 				for more := true; more; {
 					select {
-					case p, ok := <-peer.Reqs:
+					case p, ok := <-reqs:
 						if !ok {
 							closed, more = true, false
 						} else {
@@ -439,7 +514,7 @@ func c03Run(cs c03Case) (res c03Res) {
 				t := time.NewTimer(quiet)
 				for gathering := true; gathering; {
 					select {
-					case p, ok := <-peer.Reqs:
+					case p, ok := <-reqs:
 						if !ok {
 							closed, gathering = true, false
 							break
@@ -485,7 +560,7 @@ func c03Run(cs c03Case) (res c03Res) {
 	within := func(name string, f func()) bool {
 		if !cliWithin(cliDeadline, f) {
 			hung = true
-			fail("hang/"+name, name+" did not return within 20 s although every request is answered", cliDescribe(cliGoroutines2()))
+			fail("hang/"+name+hangSuffix, name+" did not return within 20 s although every request is answered", cliDescribe(cliGoroutines2()))
 			return false
 		}
 		return true
@@ -869,7 +944,7 @@ func c03Run(cs c03Case) (res c03Res) {
 					}
 				}
 				if !cliWithin(cliDeadline, run) {
-					fail("hang/"+kind, kind+" did not return within 20 s although every request is answered", cliDescribe(cliGoroutines2()))
+					fail("hang/"+kind+hangSuffix, kind+" did not return within 20 s although every request is answered", map[string]any{"peer_is": peerDoing.Load(), "goroutines": cliDescribe(cliGoroutines2())})
 					cmu.Lock()
 					hung = true
 					cmu.Unlock()
@@ -1026,7 +1101,7 @@ func head(s []string, n int) []string {
 func checkC03(c *lib.Ctx) {
 	r := c.R
 	thorough := c.Tier == "thorough"
-	r.Rule = "family 1: run = (callers 1…16, reply order perm|reverse|delay|fifo, seed, MaxPacket, concurrent writes on/off, big multi-chunk writes, id counter started just below 2^32): every caller issues a PRNG mix of 18 self-identifying operations (Stat/Lstat/ReadLink/RealPath/Mkdir/Rename/ReadDir/StatVFS/Open+Close/File.Stat/ReadAt and WriteAt single- and multi-chunk on a shared and an own File/Write+Read) on one Client; the peer answers the requests outstanding at a quiescent moment in a PRNG permutation of a PRNG subset, strictly reversed, one at a time with delays, or in order. A run is non-trivial when at least one batch of ≥2 outstanding requests was answered out of arrival order; distinct by run parameters. Client options: the 72 combinations of MaxPacket constructor (MaxPacketUnchecked | MaxPacketChecked | the MaxPacket alias) × MaxConcurrentRequestsPerFile (1 | 2 | default) × UseConcurrentReads (not given | false | true) × UseFstat (not given | true | false) are dealt over the runs in rotation. Two runs in three add File transfers to the mix: File.WriteTo (from a PRNG offset to the end of a file of 0, 1, MaxPacket-1/+0/+1, 3·MaxPacket(+1) or PRNG bytes; sequential, or concurrent with its STAT/FSTAT and its speculative reads), File.ReadFrom (readers with Len, Size, Stat, *io.LimitedReader, or none of them) and File.ReadFromWithConcurrency (0, 1, 2, 3, 100) of the same sizes, each on a fresh File and on a File all callers share (the transfer holds the File's exclusive lock while other callers' ReadAt / WriteAt / Stat on the same File wait and must still get their own results); the wire must carry exactly the requests these calls imply (READs of a concurrent WriteTo beyond the chunk that reported EOF are allowed and counted). Family 2 (abandoned request): ReadDirContext is cancelled while its OPENDIR, first READDIR or second READDIR is outstanding (the peer holds it); the deferred CLOSE, 1…6 self-identifying follow-up calls of the same caller and the calls of 0/1/3/8 concurrent callers run; the peer answers the abandoned request late (regular reply or STATUS) before the j-th follow-up reply, j PRNG incl. 0 = before the CLOSE reply, or after all calls completed; three more calls follow; 8 (quick) / 25 (thorough) abandoned requests per run."
+	r.Rule = "family 1: run = (callers 1…16, reply order perm|reverse|delay|fifo, seed, MaxPacket, concurrent writes on/off, big multi-chunk writes, id counter started just below 2^32): every caller issues a PRNG mix of 18 self-identifying operations (Stat/Lstat/ReadLink/RealPath/Mkdir/Rename/ReadDir/StatVFS/Open+Close/File.Stat/ReadAt and WriteAt single- and multi-chunk on a shared and an own File/Write+Read) on one Client; the peer answers the requests outstanding at a quiescent moment in a PRNG permutation of a PRNG subset, strictly reversed, one at a time with delays, or in order. A run is non-trivial when at least one batch of ≥2 outstanding requests was answered out of arrival order; distinct by run parameters. Client options: the 72 combinations of MaxPacket constructor (MaxPacketUnchecked | MaxPacketChecked | the MaxPacket alias) × MaxConcurrentRequestsPerFile (1 | 2 | default) × UseConcurrentReads (not given | false | true) × UseFstat (not given | true | false) are dealt over the runs in rotation. Two runs in three add File transfers to the mix: File.WriteTo (from a PRNG offset to the end of a file of 0, 1, MaxPacket-1/+0/+1, 3·MaxPacket(+1) or PRNG bytes; sequential, or concurrent with its STAT/FSTAT and its speculative reads), File.ReadFrom (readers with Len, Size, Stat, *io.LimitedReader, or none of them) and File.ReadFromWithConcurrency (0, 1, 2, 3, 100) of the same sizes, each on a fresh File and on a File all callers share (the transfer holds the File's exclusive lock while other callers' ReadAt / WriteAt / Stat on the same File wait and must still get their own results); the wire must carry exactly the requests these calls imply (READs of a concurrent WriteTo beyond the chunk that reported EOF are allowed and counted). Family 3 (peer I/O disciplines, cli_iopeer.go): the family-1 mixes (3…16 callers, all reply modes, transfers in two runs of three, PRNG options) over a transport of chosen back-pressure — synchronous (a Write blocks until the other side has read all of it), 64-byte, 4 KiB, 1 MiB buffers, both directions — against a peer of a chosen I/O discipline: eager (reads in a goroutine of its own), batch1/2/3/8 (ONE thread: reads up to k requests — waiting as long as it takes only while it owes no reply, else 150 µs —, then writes the replies chosen by the reply mode, NOT reading while it writes, then returns to reading; it may stop reading in the middle of a frame), slow (k PRNG 1…4, think time ≤ 400 µs before every read and before writing), bytewise (batch2 reading and writing in pieces of 1…7 bytes); quick 56 runs, thorough 1344. Same oracles (nothing hangs within the hang budget, every call gets the reply to its own request, framing, Close returns). Family 2 (abandoned request): ReadDirContext is cancelled while its OPENDIR, first READDIR or second READDIR is outstanding (the peer holds it); the deferred CLOSE, 1…6 self-identifying follow-up calls of the same caller and the calls of 0/1/3/8 concurrent callers run; the peer answers the abandoned request late (regular reply or STATUS) before the j-th follow-up reply, j PRNG incl. 0 = before the CLOSE reply, or after all calls completed; three more calls follow; 8 (quick) / 25 (thorough) abandoned requests per run."
 	var cases []c03Case
 	if c.Replay != "" {
 		var one c03Case
@@ -1108,6 +1183,48 @@ func checkC03(c *lib.Ctx) {
 				cases = append(cases, c03Case{Kind: "ctx", Hold: "any", Late: "any", Callers: 0, Pos: pos, Rounds: rounds, Seed: c.Rand.Int63(), MaxPacket: 1024, Mode: "ctx"})
 			}
 		}
+	}
+	if c.Replay == "" {
+		// family "peer I/O disciplines" (cli_iopeer.go): the ordinary mixes with 3…16 callers against every transport
+		// × every way a legal peer may do its I/O
+		transports := []string{"sync", "buf64", "buf4096", "buf1m"}
+		disciplines := []string{"eager", "batch1", "batch2", "batch3", "batch8", "slow", "bytewise"}
+		modes := []string{"perm", "reverse", "delay", "fifo"}
+		callerSets, nModes, seeds, ops := [][]int{{3, 8}, {5, 16}, {4, 12}}, 1, 1, 20
+		if thorough {
+			callerSets, nModes, seeds, ops = [][]int{{3, 4, 5, 8, 12, 16}}, 4, 2, 50
+		}
+		n := 0
+		for s := 0; s < seeds; s++ {
+			for ti, tr := range transports {
+				for di, d := range disciplines {
+					for _, callers := range callerSets[(ti+di)%len(callerSets)] {
+						for m := 0; m < nModes; m++ {
+							n++
+							mps := []int{1 << 15, 1024, 64, 7}
+							if d == "bytewise" {
+								mps = []int{64, 7} // every piece of 1…7 bytes is a Read / Write of its own
+							}
+							cs := c03Case{Callers: callers, Mode: modes[(n+m)%len(modes)], Seed: c.Rand.Int63(), Ops: ops, MaxPacket: mps[c.Rand.Intn(len(mps))],
+								ConcW: c.Rand.Intn(2) == 0, Xfer: c.Rand.Intn(3) != 0, Transport: tr, Peer: d}
+							cs.MPOpt, cs.MaxReq = []string{"", "checked", "alias"}[c.Rand.Intn(3)], []int{0, 1, 2}[c.Rand.Intn(3)]
+							cs.Reads, cs.Fstat = []string{"", "off", "on"}[c.Rand.Intn(3)], []string{"", "on", "off"}[c.Rand.Intn(3)]
+							cases = append(cases, cs)
+						}
+					}
+				}
+			}
+		}
+	}
+	if fam := os.Getenv("VH_C03_FAMILY"); fam != "" && c.Replay == "" {
+		// debugging aid: only the peer-I/O-discipline family ("io") or everything else ("noio")
+		var keep []c03Case
+		for _, cs := range cases {
+			if (cs.Peer != "" || cs.Transport != "") == (fam == "io") {
+				keep = append(keep, cs)
+			}
+		}
+		cases = keep
 	}
 	for i := range cases {
 		if cases[i].ConnCap == 0 {
@@ -1207,6 +1324,13 @@ func checkC03(c *lib.Ctx) {
 		}
 		r.Hist(fmt.Sprintf("callers/%02d", cs.Callers))
 		r.Hist("mode/" + cs.Mode)
+		if cs.Peer != "" || cs.Transport != "" {
+			r.Hist("peer-io/transport/" + cs.Transport)
+			r.Hist("peer-io/discipline/" + cs.Peer)
+			r.Hist(fmt.Sprintf("peer-io/callers/%02d", cs.Callers))
+		} else {
+			r.Hist("peer-io/historical(io.Pipe,eager-reader-goroutine)")
+		}
 		dflt := func(s, d string) string {
 			if s == "" {
 				return d
@@ -1282,6 +1406,10 @@ func c03Class(cs c03Case) string {
 	fam := "perm"
 	if cs.Kind != "" {
 		fam = cs.Kind
+	}
+	if cs.Peer != "" || cs.Transport != "" {
+		// a class of its own per transport and discipline: a discipline under which calls hang stops only itself
+		return "c03/io/" + cs.Transport + "/" + cs.Peer
 	}
 	if cs.Xfer {
 		fam += "+xfer"
